@@ -13,7 +13,7 @@ RULE = ('all dense-time formulas of the stated fragment (<=2 operators, no prev/
         'break-points are subsets of the half-unit grid on [t0, t0+L] (independent per variable, t0 in {0,1}); the real dense offline '
         'evaluate() output is read as a right-continuous step function and compared with the grid reference at every cell start and '
         'midpoint of the domain, plus non-decreasing time-stamps and first time-stamp = t0; a large-magnitude layer (values 1e9, 1e9+1, 1e9+2, '
-        'results up to 2e9 with unit steps, compared exactly); a re-use layer: specifications with named sub-formulas and sqrt, one object alternating between data sets '
+        'results up to 2e9 with unit steps, compared exactly); every third data set is handed over in tuples instead of lists; a re-use layer: specifications with named sub-formulas and sqrt, one object alternating between data sets '
         'it must reject (negative sample under sqrt) and data sets it must evaluate - every accepted evaluation compared with the reference; non-trivial = top operator mattered on the reference')
 ASSUMPTIONS = ['all variables of a data set start at the same t0 and end at the same time; break-points and bounds on the half-unit grid',
                'the reference is a cell computation validated against itself at two grid resolutions',
@@ -295,10 +295,16 @@ def check_case(case, spec=None, idx=0, ref=None):
             ref = reference(f, signals, idx)
         except refsem.DomainError:
             return None
-    kind, val = impl.outcome(impl.ct_evaluate, spec, signals)
+    if case.get('containers') == 'tuple':
+        # the same samples handed over in tuples (variable entry, sample list and samples): a container type the dense offline monitor accepts
+        kind, val = impl.outcome(spec.evaluate, *[(v, tuple((t, x) for t, x in s_)) for v, s_ in signals.items()])
+    else:
+        kind, val = impl.outcome(impl.ct_evaluate, spec, signals)
     if kind != 'ok':
         return 'evaluate() raised %s' % (val,)
     msg = compare(val, signals, ref[0], ref[1], exact=bool(case.get('exact')))
+    if msg is not None and case.get('containers') == 'tuple':
+        msg += ' (samples given in tuples instead of lists)'
     if msg is not None:
         t0 = min(s[0][0] for s in signals.values())
         if t0 > 0 and any(F.interval(g) is not None for g in F.subforms(f)):
@@ -339,6 +345,9 @@ def run_shard(shard, tier, res):
             case = {'formula': fj, 'spec': text, 'vars': vs, 'signals': {v: [list(p) for p in s] for v, s in sig.items()}}
             if shard.get('big'):
                 case['exact'] = True
+            if si % 3 == 2:
+                case['containers'] = 'tuple'
+                res.flags['tuple_container_cases'] += 1
             res.evaluations += 1
             try:
                 ref = reference(f, sig, si)
